@@ -70,14 +70,15 @@ type violation struct {
 }
 
 type subStats struct {
-	Evaluations int64            `json:"evaluations"`
-	Skipped     int64            `json:"skipped"`
-	EnvRetries  int64            `json:"env_retries,omitempty"`
-	NonTrivial  int64            `json:"nontrivial"`
-	Classes     map[string]int64 `json:"classes"`
-	Excluded    map[string]int64 `json:"excluded_known"`
-	Exhaustive  bool             `json:"exhaustive,omitempty"`
-	Rule        string           `json:"rule"`
+	Evaluations   int64            `json:"evaluations"`
+	Skipped       int64            `json:"skipped"`
+	EnvRetries    int64            `json:"env_retries,omitempty"`
+	TimingRetries int64            `json:"timing_retries,omitempty"`
+	NonTrivial    int64            `json:"nontrivial"`
+	Classes       map[string]int64 `json:"classes"`
+	Excluded      map[string]int64 `json:"excluded_known"`
+	Exhaustive    bool             `json:"exhaustive,omitempty"`
+	Rule          string           `json:"rule"`
 }
 
 type result struct {
@@ -465,6 +466,21 @@ func (s *Sub[C]) Once(c C) *Failure {
 	// a failure whose text names exhaustion of the sandbox itself (no free loopback port, no file
 	// descriptors) says nothing about reservoir: wait for the machine to recover and run the case again;
 	// if it persists the case is dropped and the run is reported inconclusive, never as a violation
+	// "no answer within the client's time limit" is a judgement by the wall clock: on a machine running
+	// several thorough tiers a stall of that length happens without any defect. A hang caused by the code
+	// under test shows again when the same case is run again; one that does not is counted and dropped.
+	if f != nil && strings.Contains(f.What, "i/o timeout") && !strings.HasPrefix(f.Sig, "deadlock") && !strings.HasPrefix(f.Sig, "hang") {
+		netx.Calm()
+		first := f
+		o = &Obs{}
+		f = s.safeRun(c, o)
+		mu.Lock()
+		sub(s.Name).TimingRetries++
+		mu.Unlock()
+		if f == nil {
+			Incomplete("%s: a client time-out did not show again when the case was repeated (machine stall): %s: %.200s", s.Name, first.Sig, first.What)
+		}
+	}
 	if f != nil && !netx.IsEnv(f.What) && netx.Pressure() {
 		// the port range is nearly used up: a dial inside the proxy may have failed without its error text
 		// reaching the failure message; run the case once more when the machine has ports again
